@@ -207,3 +207,54 @@ func stripAstral(v Val) Val {
 	}
 	return out
 }
+
+// normalForm is what literal coercion makes of a configured default: every input object of the
+// value gets the fields it omits that have a default of their own (inserted as configured, like
+// CoerceLiteral inserts field.DefaultValue). For a value in normal form it is the identity.
+func normalForm(d *SDef, v Val, t TRef) Val {
+	if v.K == "null" {
+		return v
+	}
+	t = t.nullable()
+	switch v.K {
+	case "list":
+		inner := t
+		if strings.HasPrefix(t.W, "L") {
+			inner = t.inner()
+		}
+		out := v
+		out.L = make([]Val, len(v.L))
+		for i, e := range v.L {
+			out.L[i] = normalForm(d, e, inner)
+		}
+		return out
+	case "obj":
+		td := d.typeByName(t.N)
+		if td == nil {
+			return v
+		}
+		out := v
+		out.O = nil
+		have := map[string]bool{}
+		for _, f := range v.O {
+			have[f.Name] = true
+			ft := TRef{}
+			for _, in := range td.Inputs {
+				if in.Name == f.Name {
+					ft = in.Type
+				}
+			}
+			out.O = append(out.O, ObjField{Name: f.Name, V: normalForm(d, f.V, ft)})
+		}
+		for _, in := range td.Inputs {
+			if !have[in.Name] && in.Def != nil {
+				out.O = append(out.O, ObjField{Name: in.Name, V: *in.Def})
+			}
+		}
+		if out.O == nil {
+			out.O = []ObjField{}
+		}
+		return out
+	}
+	return v
+}
